@@ -79,6 +79,10 @@ def transparent(f):
         return True
     if isinstance(f, type) and issubclass(f, BaseException):
         return True
+    # helpers defined by the verifier itself / by contract files run natively on symbolic values
+    mod = getattr(f, "__module__", None) or getattr(type(s), "__module__", "") if s is not None else getattr(f, "__module__", None)
+    if isinstance(mod, str) and (mod.startswith("contracts") or mod.startswith("pyvc")):
+        return True
     return False
 
 
@@ -814,15 +818,14 @@ def setitem_any(interp, obj, key, val):
 def contains(interp, container, item):
     if hasattr(container, "__pyvc_contains__"):
         return container.__pyvc_contains__(interp, item)
+    # real objects with a typhon __contains__ are analysed code
+    meth = getattr(type(container), "__contains__", None)
+    if meth is not None and str(getattr(meth, "__module__", "") or "").startswith("typhon") and not interp.concrete:
+        return interp.call_value(meth, [container, item], {}, None)
     if isinstance(item, Sym):
         if isinstance(container, (list, tuple, set, frozenset, range)):
             return mk(z3.Or([sym.truth(item == c) for c in container]))
         raise OutsideSubset("symbolic `in` %s" % type(container).__name__)
-    # real objects with a typhon __contains__ are analysed code
-    meth = getattr(type(container), "__contains__", None)
-    if meth is not None and getattr(meth, "__module__", "") and str(getattr(meth, "__module__", "")).startswith("typhon") \
-            and not interp.concrete:
-        return interp.call_value(meth, [container, item], {}, None)
     return interp.native(operator.contains, container, item)
 
 
